@@ -106,6 +106,18 @@ def construction(ctx, rep, r1, r2, r3, r4, r5):
     an, ip, out = ctx.explore(f, model=GraphModel)
     fn = f.qualname
     REQ = T.mk(('attr', T.SELF, 'required'))
+    for e in an.events('CALL', 'MUT'):
+        for t in [e.data.get('recv')] + list(e.data.get('args') or ()):
+            if t is None:
+                continue
+            for s_ in subs_of(t):
+                known = e.st.known(s_[1])
+                rep.check(known is True, r2, "%s `%s` guarded by a non-emptiness test of that list"
+                          % (e.where, T.show(s_, 3)[:60]), fn,
+                          "`%s` indexes %s, which %s on this path" % (
+                              src(stmt_of(e.node)), T.show(s_[1], 3)[:80],
+                              "is empty" if known is False else "may be empty"),
+                          "IndexError when the requirement is an empty Sequence", trace(e.st))
     muts = [e for e in an.events('MUT') if e.data['attr'] == 'required' and e.data['obj'] == T.SELF]
     rep.need(r3, len(muts), 2, "stores into self.required")
     branches = {}
